@@ -363,12 +363,19 @@ impl CursorTracker for CursorTrackerImpl<'_> {
                         // can try to keep it at the same column if possible (so long as that doesn't
                         // move it between tokens).
 
-                        let col_end = self
-                            .reconstructor
-                            .col_for_token_end_post_fmt(formatted_tokens, cursor.tok_idx);
-                        let col_start = col_end - tok.get_content().len();
-                        let col_ws_start =
-                            col_start - self.reconstructor.nonbreaking_ws_len(token).len;
+                        // Column at which the whitespace before the token starts: the end of
+                        // the previous token, unless the whitespace itself starts the line.
+                        // (Not derived from the end of this token, which may span lines.)
+                        let ws = self.reconstructor.nonbreaking_ws_len(token);
+                        let col_ws_start = if ws.break_found {
+                            0
+                        } else {
+                            self.reconstructor.col_for_token_end_post_fmt(
+                                formatted_tokens,
+                                cursor.tok_idx.wrapping_sub(1),
+                            )
+                        };
+                        let col_start = col_ws_start + ws.len;
 
                         (new_token_offset
                             - (col_start - (col as usize).clamp(col_ws_start, col_start)))
